@@ -9,26 +9,26 @@ TRUST = ("Trusted: TLC and the TLA+ front-ends; the Go harness (token registry, 
          "real histories validated in this run.")
 
 CHECKS = {
- "C01": ("model_checking", "6 C01", "TLA+ history predicate C01_Clauses (PropsEngine.tla) checked by TLC as an invariant of FlytEngine.tla over all node kinds x budgets x outcome scripts in bounds, every TLC behaviour replayed on the real library (2 Go-kind variants) and TLC evaluating the predicate on every recorded history, plus seeded random scenarios beyond the bounds."),
- "C02": ("model_checking", "6 C02", "C02_Clauses + state invariant AttemptBound model-checked on FlytEngine.tla (all failure sequences up to the budget, fallback absent/ok/err, cancellation variants); all behaviours replayed on real nodes of every kind; predicate evaluated by TLC on real histories incl. budgets up to 8."),
- "C03": ("model_checking", "6 C03", "Routing predicate PathHolds (independent table interpreter Walk) model-checked against FlytEngine.tla for all 256 tables over 2 nodes x 2 actions, overwriting Connects, two runs with re-connection; behaviours replayed on real flows; random graphs up to 12 nodes / depth 4 judged by TLC."),
- "C04": ("model_checking", "6 C04", "C04_Clauses model-checked with an error outcome possible at every callback of flat and nested flows; fault enumeration on the real code: one scenario per position of an executed path x error flavour (sentinel, wrapped, custom type), each history judged by TLC."),
- "C05": ("model_checking", "6 C05", "C05_Clauses model-checked with cancellation injected at any callback / before the run; cancel enumeration on the real code at every position of executed paths with cancel and (manually expired) deadline contexts; histories judged by TLC."),
- "C10": ("model_checking", "6 C10", "Hierarchical path predicate model-checked for nested flows (depth 2 and 3, all small tables); behaviours replayed on real nested flows; random hierarchies to depth 4 with reused inner flows judged by TLC."),
+ "C01": ("model_checking", "6 C01", "TLA+ history predicate C01_Clauses (PropsEngine.tla) checked by TLC as an invariant of FlytEngine.tla over all node kinds x budgets x outcome scripts in bounds, every TLC behaviour replayed on the real library (2 Go-kind variants) and TLC evaluating the predicate on every recorded history, plus seeded random scenarios beyond the bounds. Also: the table spec FlytDefaults.tla (nodes that provide only some of their phases: struct nodes inheriting BaseNode defaults, option- and builder-style function nodes in both styles, batch nodes) - 132 cells enumerated by TLC, each built and run on the real library alone and as the first step of a flow; data written to the store by a post must be what the next prep reads (DataThreaded); callbacks observe the run's own live context; payloads include error-typed values and typed nils; cancellation scenarios."),
+ "C02": ("model_checking", "6 C02", "C02_Clauses + state invariant AttemptBound model-checked on FlytEngine.tla (all failure sequences up to the budget, fallback absent/ok/err, cancellation variants); all behaviours replayed on real nodes of every kind; predicate evaluated by TLC on real histories incl. budgets up to 8. Also: flows with a retry budget of their own (family flowretry); every third scenario and every re-execution is also run through (*Flow).Run and must agree event for event; timed scenarios (fallback only after the budget, not after a cancelled wait); batch part (per-item budget, every item attempted)."),
+ "C03": ("model_checking", "6 C03", "Routing predicate PathHolds (independent table interpreter Walk) model-checked against FlytEngine.tla for all 256 tables over 2 nodes x 2 actions, overwriting Connects, two runs with re-connection; behaviours replayed on real flows; random graphs up to 12 nodes / depth 4 judged by TLC. Also: zero-size node types (distinct nodes sharing one address), nodes of all Go kinds, (*Flow).Run comparison."),
+ "C04": ("model_checking", "6 C04", "C04_Clauses model-checked with an error outcome possible at every callback of flat and nested flows; fault enumeration on the real code: one scenario per position of an executed path x error flavour (sentinel, wrapped, custom type), each history judged by TLC. Also: errors.Join values, errors wrapping a context error while the run's context is alive, error-typed payloads; batch nodes as flow steps; batch part."),
+ "C05": ("model_checking", "6 C05", "C05_Clauses model-checked with cancellation injected at any callback / before the run; cancel enumeration on the real code at every position of executed paths with cancel and (manually expired) deadline contexts; histories judged by TLC. Also: contexts cancelled with a cause; an attempt that fails after the cancellation is not recovered by the fallback; timed part (cancellation from outside during a retry wait)."),
+ "C10": ("model_checking", "6 C10", "Hierarchical path predicate model-checked for nested flows (depth 2 and 3, all small tables); behaviours replayed on real nested flows; random hierarchies to depth 4 with reused inner flows judged by TLC. Also: flows with their own retry budget; every callback at any depth observes the run's live context (sameContext) and the data written by the node before it at whatever depth (DataThreaded); an inner flow's error arrives unreduced (innerError); flattened-machine comparison (FlatAgrees)."),
  "C17": ("model_checking", "6 C17", "C17_Clauses model-checked over all 8 style combinations incl. error results and nil values; behaviours replayed on real function nodes built option-style and builder-style with payloads of 7 Go kinds; judged by TLC."),
- "C18": ("model_checking", "6 C18", "C18_Clauses + state invariant NoEmptyAction model-checked; empty-action posts as routed steps (default connection must be followed); behaviours replayed; judged by TLC."),
+ "C18": ("model_checking", "6 C18", "C18_Clauses + state invariant NoEmptyAction model-checked; empty-action posts as routed steps (default connection must be followed); behaviours replayed; judged by TLC. Also: blank-looking action names, cancellation scenarios (a cancelled run must not return the empty action with a nil error), the action rule for nodes without a post function (FlytDefaults.tla), batch part incl. the empty batch."),
  "C06": ("model_checking", "6 C06", "C06_Clauses model-checked on FlytBatch.tla (implementation-shaped: FIFO queue of 2c, workers, WaitGroup, stop flag under the mutex) over all interleavings for small n,c; behaviours of the gated scheduler exported and realised on the real batch runner by parking every exec call on a gate (every completion order); prep payload shapes []Result/[]any/typed slices/single/nil; random sizes to 64 items / 16 workers; TLC judges every recorded history."),
  "C07": ("model_checking", "6 C07", "C07_Clauses (exactly-once, per-item budget/fallback, slot contents) model-checked over all per-item outcome scripts in bounds, all interleavings; gated replay of every exported completion order on the real code; random batches; judged by TLC."),
  "C08": ("model_checking", "6 C08", "State invariant ConcurrencyBound + history predicate (in-flight count at every exec entry, tickets taken inside the callback so logged intervals are contained in real ones) model-checked; barrier scenarios on the real code show c executions do run simultaneously (stuck watchdog); sequential order clause; judged by TLC."),
  "C09": ("model_checking", "6 C09", "C09_Clauses model-checked incl. the race between one worker's Record and another's StopCheck (separate actions); gated replay where all other workers are parked while the failure is handled (strict clause, confirmed with 20/100/400 ms settle pauses before it counts); noFakeSuccess on every slot; judged by TLC."),
- "C11": ("model_checking", "6 C11", "C11_Clauses model-checked with cancellation from inside any exec/fallback/post or before the run, with retry waits; gated replay with cancel and manually-expired deadline contexts; hang watchdog; judged by TLC."),
- "C12": ("model_checking", "6 C12", "FlytPool.tla (Submit = Add + blocking send, FIFO queue of 2*workers, worker select loop, Wait, Close) model-checked over every interleaving of submitters/workers/rounds (state invariants AtMostOnce, WgExact, WaitBarrier, RoundBarrier, PoolBound; liveness Close ~> all workers exited under weak fairness); C12_Clauses (one-pass monitor over submit/submitret/taskstart/taskend/waitcall/waitret/leak events) checked on the gated-scheduler behaviours, which are replayed on the real pool (gated submitters and task bodies); random pools to 16 workers / 500 tasks / 4 submitters / 3 rounds under the race detector with plain writes read back after Wait and a goroutine-dump leak probe; judged by TLC."),
- "C13": ("model_checking", "6 C13", "Linearizability decided history by history by TLC: FlytStoreConc.tla (Call / silent Lin applying StoreSem!Apply atomically / Ret must return what Lin computed) must have a behaviour consuming each recorded call/ret history (2-6 goroutines from a barrier, all operations incl. Merge of up to 8 keys, Clear, GetAll, Keys, Len, typed getters); the lock-level model FlytStoreLock.tla (RWMutex, per-key loop bodies) is model-checked to refine the atomic store; recording and an additional stress run execute under the Go race detector (a report is a violation)."),
+ "C11": ("model_checking", "6 C11", "C11_Clauses model-checked with cancellation from inside any exec/fallback/post or before the run, with retry waits; gated replay with cancel and manually-expired deadline contexts; hang watchdog; judged by TLC. Also through a flow: flows whose steps are batch nodes, with loops in their table, cancelled from inside an item (family batchloop / mode batchflow, clauses C11E: the run terminates, no new batch or attempt after the cancellation, context error or full path), judged on FlytEngine histories; real deadline and cancel-with-cause contexts."),
+ "C12": ("model_checking", "6 C12", "FlytPool.tla (Submit = Add + blocking send, FIFO queue of 2*workers, worker select loop, Wait, Close) model-checked over every interleaving of submitters/workers/rounds (state invariants AtMostOnce, WgExact, WaitBarrier, RoundBarrier, PoolBound; liveness Close ~> all workers exited under weak fairness); C12_Clauses (one-pass monitor over submit/submitret/taskstart/taskend/waitcall/waitret/leak events) checked on the gated-scheduler behaviours, which are replayed on the real pool (gated submitters and task bodies); random pools to 16 workers / 500 tasks / 4 submitters / 3 rounds under the race detector with plain writes read back after Wait and a goroutine-dump leak probe; judged by TLC. Also: back-pressure as a clause of its own (returned-but-unfinished tasks never exceed the queue capacity read off the real pool object plus the workers; schedule `full` drives Submit into a full queue), tens of thousands of paced Submit/Submit/Wait rounds on one small pool cut into per-round slices, Wait concurrent with late submitters; histories of a Close without Wait are trace-validated against CloseEarly without a verdict."),
+ "C13": ("model_checking", "6 C13", "Linearizability decided history by history by TLC: FlytStoreConc.tla (Call / silent Lin applying StoreSem!Apply atomically / Ret must return what Lin computed) must have a behaviour consuming each recorded call/ret history (2-6 goroutines from a barrier, all operations incl. Merge of up to 8 keys, Clear, GetAll, Keys, Len, typed getters); the lock-level model FlytStoreLock.tla (RWMutex, per-key loop bodies) is model-checked to refine the atomic store; recording and an additional stress run execute under the Go race detector (a report is a violation). Also: the caller mutates the map it handed to Merge; long runs under delete churn in which every log of the single writer of a key set must be a sequential map history (ownerSequential); quiescent self-consistency after stress; a Go runtime concurrent-map fatal error inside a store method counts as a race."),
  "C14": ("model_checking", "6 C14", "FlytStore.tla explores every operation sequence (with snapshot mutation / read-back / merge-snapshot steps) over 2 keys x values incl. nil up to the bound, checking mutual consistency of Has/Len/Keys/GetAll in every state; every exported sequence is replayed on the real store; PropsStore!Replay (fold of StoreSem!Apply) is evaluated by TLC on every recorded history incl. random sequences up to 200 operations over 12 keys (empty and non-ASCII keys, nil values)."),
- "C15": ("model_checking", "6 C15", "Decision table FlytAccess.tla (38 value classes x 6 families x plain/Or/Must x result/store/absent); TLC enumerates all 1572 cells and checks the consistency relations the property states (never panics, Must/plain/Or agreement, store = result, conversion exactly for the documented types); every cell is exercised on the real accessors with several representative values per class (boundary values of all numeric kinds, NaN/Inf, typed nils, self-containing slice, uncomparable structs/arrays) plus seeded random values; the harness logs plain facts (panicked, ok, equals default / zero / Go's own conversion / ToSlice elementwise) and TLC judges each call against its cell."),
+ "C15": ("model_checking", "6 C15", "Decision table FlytAccess.tla (38 value classes x 6 families x plain/Or/Must x result/store/absent); TLC enumerates all 1572 cells and checks the consistency relations the property states (never panics, Must/plain/Or agreement, store = result, conversion exactly for the documented types); every cell is exercised on the real accessors with several representative values per class (boundary values of all numeric kinds, NaN/Inf, typed nils, self-containing slice, uncomparable structs/arrays) plus seeded random values; the harness logs plain facts (panicked, ok, equals default / zero / Go's own conversion / ToSlice elementwise) and TLC judges each call against its cell. Also: values whose dynamic type is flyt.Result itself; replacement sequences on one store key."),
  "C16": ("model_checking", "6 C16", "Decision table FlytBind.tla (carrier x key present x nil value x destination class x encoding/json reference outcome -> err / copy / json), consistency relations checked by TLC; every cell exercised with maps, tagged/untagged structs, slices, scalars, pointers, channels, funcs and random nested JSON values against a reference json.Marshal+Unmarshal into a fresh destination; never-panics, source-unchanged and carrier-agreement facts judged by TLC."),
- "C19": ("model_checking", "6 C19", "FlytConfig.tla builds configuration step sequences (constructor option / builder method / NodeOption applied later) and checks stepwise application = last-setting-wins, unrelated parameters untouched; every sequence up to the bound is exported and applied to real NodeBuilder / BatchNodeBuilder objects; getters and two probe runs (attempts on an always-failing exec, fallback / functions actually called, concurrency high-water mark at a barrier, stop vs continue) are compared by TLC with the expected configuration; random sequences up to length 6."),
- "C20": ("model_checking", "6 C20", "Timed model FlytRetryTimed.tla (integer clock, wait = select{timer, ctx.Done}, urgency of the cancelled wait) model-checked: WaitHonoured, WaitOnlyBetween, PromptReturn, NoAttemptAfterCancelledWait; on the real code monotonic timestamps are taken inside the callbacks (so the measured gap over-approximates the real wait: the lower bound is a sound hard verdict) for waits 1-50 ms x budgets 2-5 x failure sequences on struct nodes, function nodes and batch items; upper bounds (no wait before the first / after the last attempt with a 1.2 s wait; return within w/2 resp. 10 s after a cancellation 20 ms into a 2 s / 1 h wait) count only if exceeded on three consecutive re-executions; TLC evaluates PropsTiming on every timed history."),
+ "C19": ("model_checking", "6 C19", "FlytConfig.tla builds configuration step sequences (constructor option / builder method / NodeOption applied later) and checks stepwise application = last-setting-wins, unrelated parameters untouched; every sequence up to the bound is exported and applied to real NodeBuilder / BatchNodeBuilder objects; getters and two probe runs (attempts on an always-failing exec, fallback / functions actually called, concurrency high-water mark at a barrier, stop vs continue) are compared by TLC with the expected configuration; random sequences up to length 6. Also: scalar options handed over as plain func(*BaseNode) values; function settings in Result and Any style; pool-size probe."),
+ "C20": ("model_checking", "6 C20", "Timed model FlytRetryTimed.tla (integer clock, wait = select{timer, ctx.Done}, urgency of the cancelled wait) model-checked: WaitHonoured, WaitOnlyBetween, PromptReturn, NoAttemptAfterCancelledWait; on the real code monotonic timestamps are taken inside the callbacks (so the measured gap over-approximates the real wait: the lower bound is a sound hard verdict) for waits 1-50 ms x budgets 2-5 x failure sequences on struct nodes, function nodes and batch items; upper bounds (no wait before the first / after the last attempt with a 1.2 s wait; return within w/2 resp. 10 s after a cancellation 20 ms into a 2 s / 1 h wait) count only if exceeded on three consecutive re-executions; TLC evaluates PropsTiming on every timed history. Also: failing attempts whose error wraps a context error while the run's context is alive, errors.Join; real context deadlines falling into the wait; waitCompletes (no cancellation, so every attempt of the budget is made); stop-mode sibling waits."),
 }
 ENGINE = ["C01", "C02", "C03", "C04", "C05", "C10", "C17", "C18"]
 BATCH = ["C06", "C07", "C08", "C09", "C11"]
